@@ -95,7 +95,10 @@ def run(ctx):
             continue
         if len(b) <= SIZE_CAP:
             files.append((os.path.relpath(f, REPO), b))
-    if ctx.quick:
+    only = os.environ.get("C19_ONLY")      # debugging aid: comma-separated path substrings
+    if only:
+        files = [x for x in files if any(o in x[0] for o in only.split(","))]
+    elif ctx.quick:
         files = rng.sample(files, min(len(files), 450))
     cases = []   # (origin, variant, bytes)
     for ln in open(os.path.join(ROOT, "corpus", "C19", "regress.txt"), encoding="utf-8"):
